@@ -444,6 +444,130 @@ def fam_after_help(tier: str) -> Iterator[Dict[str, Any]]:
             yield {"family": "after_help", "construct": f"{name}/{'blank' if blank else 'noblank'}", "files": files}
 
 
+# --------------------------------------------------------------------------------------------------
+# (g) string literals: quote kind x content features x position
+# --------------------------------------------------------------------------------------------------
+
+SAUX = cfgblock("B", ['bool "b"']) + cfgblock("S", ['string "s"', 'default "v"']) + cfgblock("TS", ['string "ts"', 'default "x"'])
+
+
+def str_fragments(q: str) -> Dict[str, Tuple[str, str]]:
+    """feature -> (source text, value after escape / reference processing) for a literal quoted with `q`"""
+    o = "'" if q == '"' else '"'
+    return {
+        "other": (f"it{o}s", f"it{o}s"),          # the other kind of quote, unescaped (docs: "Name of the ship's captain")
+        "escq": (f"a\\{q}b", f"a{q}b"),           # escaped quote of the own kind
+        "escbs": ("c\\\\d", "c\\d"),              # escaped backslash
+        "esco": (f"e\\{o}f", f"e{o}f"),           # escaped quote of the other kind
+        "macro": ("$(MAC)", "42"),                # preprocessor macro reference
+        "envp": ("$(MCKENV)", "envval"),          # environment through the macro form
+        "envb": ("${MCKENV}", "envval"),          # environment, documented form
+        "envd": ("$MCKENV", "envval"),            # environment, plain form
+        "hash": ("g#h", "g#h"),                   # comment character inside the literal
+    }
+
+
+REF_FEATURES = ("macro", "envp", "envb", "envd")
+QNAME = {'"': "dq", "'": "sq"}
+
+
+def str_literals(tier: str, q: str) -> List[Tuple[str, str, str]]:
+    """(feature label, literal source incl. quotes, value) for every literal of the bounded family"""
+    fr = str_fragments(q)
+    quick_feats = ("other", "escq", "escbs", "macro", "envb", "hash")
+    feats = quick_feats if tier == "quick" else tuple(fr)
+    out: List[Tuple[str, str, str]] = []
+
+    def add(seq: Tuple[str, ...], joiner: str, lead: bool, trail: bool) -> None:
+        src = joiner.join(fr[f][0] for f in seq) if seq else "w"
+        val = joiner.join(fr[f][1] for f in seq) if seq else "w"
+        mods = (["blank"] if joiner == " " and len(seq) > 1 else []) + (["lead"] if lead else []) + (["trail"] if trail else [])
+        if lead:
+            src, val = " " + src, " " + val
+        if trail:
+            src, val = src + " ", val + " "
+        label = ">".join(seq) if seq else "plain"
+        if mods:
+            label += "~" + "~".join(mods)
+        out.append((label, q + src + q, val))
+
+    maxn = 2 if tier == "quick" else 3
+    seqs: List[Tuple[str, ...]] = [()]
+    for n in range(1, maxn + 1):
+        seqs += list(itertools.permutations(feats, n))
+    for seq in seqs:
+        add(seq, "-", False, False)
+    # blanks: inside (between two features), leading, trailing, both
+    for seq in seqs:
+        if len(seq) > (1 if tier == "quick" else 2):
+            continue
+        for lead, trail in ((True, False), (False, True), (True, True)):
+            add(seq, "-", lead, trail)
+    for seq in seqs:
+        if len(seq) == 2:
+            add(seq, " ", False, False)
+            if tier != "quick":
+                add(seq, " ", True, True)
+    return out
+
+
+def _cfgT(lines: List[str]) -> str:
+    return cfgblock("T", lines)
+
+
+# position -> (quote kinds generated there, renderer(literal) -> body below the mainmenu line or None for whole-file positions)
+STR_POSITIONS: Dict[str, Tuple[str, Any]] = {
+    "inline_prompt": ("\"'", lambda x: _cfgT([f"bool {x}"])),
+    "inline_prompt_if": ("\"'", lambda x: _cfgT([f"bool {x} if B"])),
+    "prompt": ("\"'", lambda x: _cfgT(["bool", f"prompt {x}"])),
+    "prompt_if": ("\"'", lambda x: _cfgT(["bool", f"prompt {x} if B"])),
+    "choice_prompt": ("\"'", lambda x: f"{I}choice\n{I}{I}prompt {x}\n\n" + cfgblock("T", ['bool "t"'], ind=I * 2) + f"{I}endchoice\n"),
+    "warning": ("\"'", lambda x: _cfgT(['bool "t"', f"warning {x}"])),
+    "comment_title": ("\"'", lambda x: f"{I}comment {x}\n\n" + _cfgT(['bool "t"'])),
+    "menu_title": ('"', lambda x: f"{I}menu {x}\n\n" + cfgblock("T", ['bool "t"'], ind=I * 2) + f"{I}endmenu\n"),
+    "mainmenu_title": ('"', None),
+    "default": ("\"'", lambda x: _cfgT(['string "t"', f"default {x}"])),
+    "default_if": ("\"'", lambda x: _cfgT(['string "t"', f"default {x} if B", 'default "z"'])),
+    "default_if_cmp_esc": ("\"'", lambda x: _cfgT(['string "t"', f'default {x} if S = "k\\\\l"', 'default "z"'])),
+    "default_esc_if_cmp": ("\"'", lambda x: _cfgT(['string "t"', f'default "k\\\\l" if S = {x}', 'default "z"'])),
+    "default_ref_if_cmp": ("\"'", lambda x: _cfgT(['string "t"', f'default "${{MCKENV}}" if S != {x}', 'default "z"'])),
+    "cmp_depends": ("\"'", lambda x: _cfgT(['bool "t"', f"depends on S = {x}"])),
+    "cmp_depends_lhs": ("\"'", lambda x: _cfgT(['bool "t"', f"depends on {x} != S && B"])),
+    "cmp_prompt_if": ("\"'", lambda x: _cfgT(["bool", f'prompt "t" if S = {x}'])),
+    "cmp_if_entry": ("\"'", lambda x: f"{I}if S = {x}\n\n" + cfgblock("T", ['bool "t"'], ind=I * 2) + f"{I}endif\n"),
+    "cmp_menu_visible": ("\"'", lambda x: f'{I}menu "m"\n{I}{I}visible if S != {x}\n\n' + cfgblock("T", ['bool "t"'], ind=I * 2) + f"{I}endmenu\n"),
+    "cmp_select_if": ("\"'", lambda x: _cfgT(['bool "t"', f"select B if S = {x}"])),
+    "set_value": ("\"'", lambda x: _cfgT(['bool "t"', f"set TS={x}"])),
+    "set_default_value": ("\"'", lambda x: _cfgT(['bool "t"', f"set default TS={x} if B"])),
+    "macro_value": ("\"'", lambda x: f"{I}MV = {x}\n\n" + _cfgT(['string "t"', 'default "$(MV)"'])),
+    "rsource_path": ('"', None),
+}
+# positions that hold a VALUE (documents: macros / environment references are usable in values and expressions); in
+# prompts and titles the documents do not mention references, so reference features are not generated there
+STR_VALUE_POSITIONS = ("default", "default_if", "default_if_cmp_esc", "default_esc_if_cmp", "default_ref_if_cmp", "cmp_depends", "cmp_depends_lhs", "cmp_prompt_if",
+                       "cmp_if_entry", "cmp_menu_visible", "cmp_select_if", "set_value", "set_default_value", "rsource_path")
+
+
+def fam_strings(tier: str) -> Iterator[Dict[str, Any]]:
+    for pos, (quotes, render) in STR_POSITIONS.items():
+        for q in quotes:
+            for label, lit, val in str_literals(tier, q):
+                feats = set(label.split("~")[0].split(">"))
+                if pos not in STR_VALUE_POSITIONS and feats & set(REF_FEATURES):
+                    continue
+                head = "MAC = 42\n\n"
+                if pos == "mainmenu_title":
+                    files = {"Kconfig": f"mainmenu {lit}\n\n" + head + SAUX + cfgblock("T", ['bool "t"'])}
+                elif pos == "rsource_path":
+                    if "/" in val or "\0" in val:
+                        continue
+                    files = {"Kconfig": mm(head + SAUX + f"{I}rsource {q}Kconfig.{lit[1:-1]}{q}\n\n" + cfgblock("TAIL", ['bool "tail"'])),
+                             "Kconfig." + val: cfgblock("T", ['bool "t"'], ind="")}
+                else:
+                    files = {"Kconfig": mm(head + SAUX + render(lit))}
+                yield {"family": "strlit", "construct": f"{pos}/{QNAME[q]}/{label}", "lit": lit, "files": files}
+
+
 def fam_fixtures(tier: str) -> Iterator[Dict[str, Any]]:
     root = common.REPO_ROOT
     pats = ["test/kconfiglib/kconfigs/ok/*.in", "test/kconfiglib/kconfigs/warnings/*.in", "test/kconfiglib/kconfigs/errors/*.in", "test/kconfiglib/kconfigs/Kconfig.*",
